@@ -572,6 +572,23 @@ def evaluate(trace, detail=False):
                        cfgname, bad[0]["name"], bad[0]["text"][:300]),
                    "config": cfgname}
       break
+    # every probe line reads a name that A's stub declares, with the call shape
+    # its signature declares: an error that says the name is not there / not
+    # callable that way means B sees something else than what A emitted
+    b_lines = b_src.splitlines()
+    shape = [e for e in r["errors"]
+             if e["name"] in ("attribute-error", "module-attr", "not-callable",
+                              "wrong-arg-count", "missing-parameter",
+                              "wrong-keyword-args", "name-error")
+             and e["line"] and 0 < e["line"] <= len(b_lines)
+             and b_lines[e["line"] - 1].split(" ", 1)[0] in expect]
+    if shape:
+      violation = {"class": "SPURIOUS_ERROR", "oracle": "probe_line_error",
+                   "what": "B (%s) reports %s on the probe `%s`: %s" % (
+                       cfgname, shape[0]["name"], b_lines[shape[0]["line"] - 1],
+                       shape[0]["text"].split("\n")[0][-200:]),
+                   "config": cfgname}
+      break
     try:
       binfo = read_stub(r["pyi"])
     except SyntaxError as ex:
